@@ -58,9 +58,86 @@ def eval_sym(s, env, memo):
         v = n / dd
         e = (abs(n) * ed + abs(dd) * en) / (abs(dd) * (abs(dd) - ed)) + 1
         r = (v, e)
+    elif op == "fptosi":
+        z, ez = feval(ta[2], env, memo)
+        # truncation toward zero of z (+- ez): within 1/2 of z -+ 1/2
+        if z - ez >= 0:
+            r = (z - Fraction(1, 2), ez + Fraction(1, 2))
+        elif z + ez <= 0:
+            r = (z + Fraction(1, 2), ez + Fraction(1, 2))
+        else:
+            r = (z, ez + 1)
     else:
         raise Unsupported("operator %s" % op)
     memo[s] = r
+    return r
+
+
+FPREL = Fraction(1, 1 << 48)      # generous bound on the relative rounding error accumulated by a handful of binary64 operations
+
+
+def _sqrt_frac(x, up):
+    """rational enclosure end of sqrt(x), x >= 0 Fraction, to 2^-80"""
+    import math
+    n = (x.numerator << 160) // x.denominator
+    r = math.isqrt(n)
+    if up:
+        r += 1
+    return Fraction(r, 1 << 80)
+
+
+def feval(t, env, memo):
+    """(ideal real value, bound on |actual - ideal|) of a value-numbered floating expression at a point"""
+    key = ("f", t)
+    if key in memo:
+        return memo[key]
+    ta = term_args(t)
+    if ta is None:
+        raise Unsupported("float term %s" % (t,))
+    op = ta[0]
+    if op == "cfp":
+        v = Fraction(float(ta[-1])) if ta[-1] not in ("nan",) else None
+        if v is None:
+            raise Unsupported("NaN constant")
+        r = (v, Fraction(0))
+    elif op in ("sitofp", "uitofp"):
+        v, e = eval_key(ta[2], env, memo)
+        r = (v, e + abs(v) * FPREL)
+    elif op in ("fpext", "fptrunc"):
+        r = feval(ta[1], env, memo)
+    elif op == "fdiv":
+        a, ea = feval(ta[1], env, memo)
+        b, eb = feval(ta[2], env, memo)
+        if abs(b) - eb <= 0:
+            raise Unsupported("float divisor may vanish")
+        v = a / b
+        r = (v, (abs(a) * eb + abs(b) * ea) / (abs(b) * (abs(b) - eb)) + abs(v) * FPREL)
+    elif op == "fmul":
+        a, ea = feval(ta[1], env, memo)
+        b, eb = feval(ta[2], env, memo)
+        r = (a * b, abs(a) * eb + abs(b) * ea + ea * eb + abs(a * b) * FPREL)
+    elif op in ("fadd", "fsub"):
+        a, ea = feval(ta[1], env, memo)
+        b, eb = feval(ta[2], env, memo)
+        v = a + b if op == "fadd" else a - b
+        r = (v, ea + eb + abs(v) * FPREL)
+    elif op == "fmuladd":
+        a, ea = feval(ta[1], env, memo)
+        b, eb = feval(ta[2], env, memo)
+        c, ec = feval(ta[3], env, memo)
+        v = a * b + c
+        r = (v, abs(a) * eb + abs(b) * ea + ea * eb + ec + (abs(a * b) + abs(v)) * FPREL)
+    elif op == "sqrt":
+        a, ea = feval(ta[1], env, memo)
+        if a - ea <= 0:
+            raise Unsupported("sqrt argument may be non-positive")
+        lo = _sqrt_frac(a - ea, False)
+        hi = _sqrt_frac(a + ea, True)
+        v = (lo + hi) / 2
+        r = (v, (hi - lo) / 2 + v * FPREL)
+    else:
+        raise Unsupported("float operator %s" % op)
+    memo[key] = r
     return r
 
 
@@ -211,9 +288,88 @@ def cell_sym(s, xiv, memo):
         qmin = min(abs(q[0]), abs(q[1]))
         E = (_absmax(n) * eq + _absmax(q) * en) / (qmin * (qmin - eq)) + 1
         r = (V, D, E)
+    elif op == "fptosi":
+        z, dz, ez = fcell(ta[2], xiv, memo)
+        if z[0] - ez >= 0:
+            r = ((z[0] - Fraction(1, 2), z[1] - Fraction(1, 2)), dz, ez + Fraction(1, 2))
+        elif z[1] + ez <= 0:
+            r = ((z[0] + Fraction(1, 2), z[1] + Fraction(1, 2)), dz, ez + Fraction(1, 2))
+        else:
+            r = (z, dz, ez + 1)
     else:
         raise Unsupported("operator %s" % op)
     memo[s] = r
+    return r
+
+
+def fcell(t, xiv, memo):
+    """(value interval, derivative interval, noise bound) of a floating expression over the cell"""
+    key = ("f", t)
+    if key in memo:
+        return memo[key]
+    ta = term_args(t)
+    if ta is None:
+        raise Unsupported("float term %s" % (t,))
+    op = ta[0]
+    Z = (Fraction(0), Fraction(0))
+    if op == "cfp":
+        v = Fraction(float(ta[-1]))
+        r = ((v, v), Z, Fraction(0))
+    elif op in ("sitofp", "uitofp"):
+        V, D, E = cell_key(ta[2], xiv, memo)
+        r = (V, D, E + _absmax(V) * FPREL)
+    elif op in ("fpext", "fptrunc"):
+        r = fcell(ta[1], xiv, memo)
+    elif op == "fdiv":
+        a, da, ea = fcell(ta[1], xiv, memo)
+        b, db, eb = fcell(ta[2], xiv, memo)
+        if b[0] - eb <= 0 <= b[1] + eb:
+            raise Unsupported("float divisor may vanish on the cell")
+        inv = (1 / b[1], 1 / b[0])
+        inv = (min(inv), max(inv))
+        V = _mul(a, inv)
+        t1 = _mul(da, inv)
+        t2 = _mul(_mul(a, db), _mul(inv, inv))
+        bmin = min(abs(b[0]), abs(b[1]))
+        r = (V, (t1[0] - t2[1], t1[1] - t2[0]), (_absmax(a) * eb + _absmax(b) * ea) / (bmin * (bmin - eb)) + _absmax(V) * FPREL)
+    elif op == "fmul":
+        a, da, ea = fcell(ta[1], xiv, memo)
+        b, db, eb = fcell(ta[2], xiv, memo)
+        V = _mul(a, b)
+        t1, t2 = _mul(da, b), _mul(a, db)
+        r = (V, (t1[0] + t2[0], t1[1] + t2[1]), _absmax(a) * eb + _absmax(b) * ea + ea * eb + _absmax(V) * FPREL)
+    elif op in ("fadd", "fsub"):
+        a, da, ea = fcell(ta[1], xiv, memo)
+        b, db, eb = fcell(ta[2], xiv, memo)
+        if op == "fadd":
+            V, D = (a[0] + b[0], a[1] + b[1]), (da[0] + db[0], da[1] + db[1])
+        else:
+            V, D = (a[0] - b[1], a[1] - b[0]), (da[0] - db[1], da[1] - db[0])
+        r = (V, D, ea + eb + _absmax(V) * FPREL)
+    elif op == "fmuladd":
+        a, da, ea = fcell(ta[1], xiv, memo)
+        b, db, eb = fcell(ta[2], xiv, memo)
+        c, dc, ec = fcell(ta[3], xiv, memo)
+        P_ = _mul(a, b)
+        V = (P_[0] + c[0], P_[1] + c[1])
+        t1, t2 = _mul(da, b), _mul(a, db)
+        D = (t1[0] + t2[0] + dc[0], t1[1] + t2[1] + dc[1])
+        r = (V, D, _absmax(a) * eb + _absmax(b) * ea + ea * eb + ec + (_absmax(P_) + _absmax(V)) * FPREL)
+    elif op == "sqrt":
+        a, da, ea = fcell(ta[1], xiv, memo)
+        if a[0] - ea <= 0:
+            raise Unsupported("sqrt argument may be non-positive on the cell")
+        lo = _sqrt_frac(a[0], False)
+        hi = _sqrt_frac(a[1], True)
+        # (sqrt u)' = u' / (2 sqrt u)
+        inv = (1 / (2 * hi), 1 / (2 * lo))
+        D = _mul(da, inv)
+        # noise: |sqrt(u+e) - sqrt(u)| <= e / (2 sqrt(u - e))
+        E = ea / (2 * _sqrt_frac(a[0] - ea, False)) + hi * FPREL
+        r = ((lo, hi), D, E)
+    else:
+        raise Unsupported("float operator %s" % op)
+    memo[key] = r
     return r
 
 
